@@ -97,9 +97,16 @@ var leanKeywords = map[string]bool{"at": true, "from": true, "have": true, "show
 	"attribute": true, "set_option": true, "termination_by": true, "decreasing_by": true, "elab": true, "nofun": true, "fun_induction": true,
 	"assert": true, "unless": true, "try": true, "catch": true, "finally": true, "break": true, "continue": true, "forall": true, "exists": true}
 
+// a Go name that is the name of a Lean type the generated text itself uses would shadow it inside the namespace
+var leanTypeNames = map[string]bool{"String": true, "List": true, "Option": true, "Nat": true, "Int": true, "Bool": true,
+	"Unit": true, "Type": true, "Prop": true, "Prod": true}
+
 func leanIdent(s string) string {
 	if leanKeywords[s] {
 		return "«" + s + "»"
+	}
+	if leanTypeNames[s] {
+		return s + "'"
 	}
 	return s
 }
@@ -1000,6 +1007,52 @@ func (m *mctx) call(c *ast.CallExpr) string {
 
 // ---- statements ---------------------------------------------------------------------------------------------------
 
+// switchToIf: a tagless `switch { case c1: …; case c2: …; default: … }` whose clauses neither break nor fall through is the
+// if-else chain it abbreviates (the conditions are tried in order; the default may stand anywhere but is tried last)
+func switchToIf(sw *ast.SwitchStmt) ast.Stmt {
+	if sw.Tag != nil || sw.Init != nil {
+		bad("switch with a tag or an init statement")
+	}
+	var clauses []*ast.CaseClause
+	var def *ast.CaseClause
+	for _, c := range sw.Body.List {
+		cc := c.(*ast.CaseClause)
+		for _, st := range cc.Body {
+			ast.Inspect(st, func(n ast.Node) bool {
+				switch b := n.(type) {
+				case *ast.BranchStmt:
+					if b.Tok == token.BREAK || b.Tok == token.FALLTHROUGH {
+						bad("%s inside a switch", b.Tok)
+					}
+				case *ast.FuncLit, *ast.ForStmt, *ast.RangeStmt, *ast.SwitchStmt, *ast.SelectStmt, *ast.TypeSwitchStmt:
+					return false
+				}
+				return true
+			})
+		}
+		if cc.List == nil {
+			def = cc
+			continue
+		}
+		if len(cc.List) != 1 {
+			bad("switch case with several expressions")
+		}
+		clauses = append(clauses, cc)
+	}
+	if len(clauses) == 0 {
+		bad("switch without a case")
+	}
+	var els ast.Stmt
+	if def != nil {
+		els = &ast.BlockStmt{Lbrace: def.Pos(), List: def.Body, Rbrace: def.End()}
+	}
+	for k := len(clauses) - 1; k >= 0; k-- {
+		cc := clauses[k]
+		els = &ast.IfStmt{If: cc.Pos(), Cond: cc.List[0], Body: &ast.BlockStmt{Lbrace: cc.Pos(), List: cc.Body, Rbrace: cc.End()}, Else: els}
+	}
+	return els
+}
+
 func isPanicCall(e ast.Expr) bool {
 	c, ok := e.(*ast.CallExpr)
 	if !ok {
@@ -1244,6 +1297,9 @@ func (m *mctx) stmts(list []ast.Stmt, tail func() string, ind string) string {
 	var b strings.Builder
 	for i, s := range list {
 		rest := list[i+1:]
+		if sw, ok := s.(*ast.SwitchStmt); ok {
+			s = switchToIf(sw)
+		}
 		switch x := s.(type) {
 		case *ast.ReturnStmt:
 			vals := make([]string, len(x.Results))
@@ -2234,7 +2290,7 @@ func translateType(repo string, cfg codeCfg) (string, error) {
 		un = append(un, n)
 	}
 	sort.Strings(un)
-	out.WriteString("/-- methods of the type that are NOT translated, with the reason -/\ndef untranslated : List (String × String) := [\n")
+	out.WriteString("/-- methods of the type that are NOT translated, with the reason -/\ndef untranslated : List (_root_.String × _root_.String) := [\n")
 	for i, n := range un {
 		sep := ","
 		if i == len(un)-1 {
@@ -2242,7 +2298,7 @@ func translateType(repo string, cfg codeCfg) (string, error) {
 		}
 		out.WriteString(fmt.Sprintf("  (%s, %s)%s\n", leanStr(n), leanStr(untranslated[n]), sep))
 	}
-	out.WriteString("]\n\n/-- the translated methods, in the order of this file -/\ndef translated : List String := [")
+	out.WriteString("]\n\n/-- the translated methods, in the order of this file -/\ndef translated : List _root_.String := [")
 	q := make([]string, 0, len(order)+len(pureNames))
 	for _, n := range pureNames {
 		q = append(q, leanStr(n))
